@@ -82,6 +82,24 @@ structure LDoc where
 
 def pathJoin (a b : String) : String := pathPush a b
 
+/-- one document of a file that was just read -/
+def mkLDoc (inc : FileInclude) (start : Nat) (dn : YDoc × Nat) : LDoc :=
+  { doc := dn.1, filename := inc.filename, idx := start + dn.2, includedBy := inc.includedBy }
+
+/-- `IndexSet::insert` on the work-list -/
+def addInclude (incs : List FileInclude) (fi : FileInclude) : List FileInclude :=
+  if incs.contains fi then incs else incs ++ [fi]
+
+def subdirInclude (rel : String) (idx : Nat) (sd : String) : FileInclude :=
+  ⟨pathJoin (pathJoin rel sd) "laze.yml", some idx⟩
+
+def fileInclude (rel : String) (idx : Nat) (f : String) : FileInclude := ⟨pathJoin rel f, some idx⟩
+
+/-- the files a document asks for: its `subdirs` first, then its `includes` -/
+def docIncludes (rel : String) (incs : List FileInclude) (nd : LDoc) : List FileInclude :=
+  ((nd.doc.includes.getD []).map (fileInclude rel nd.idx)).foldl addInclude
+    (((nd.doc.subdirs.getD []).map (subdirInclude rel nd.idx)).foldl addInclude incs)
+
 /-- the `while filenames_pos < filenames.len()` loop; `fuel` bounds the number of files read -/
 def loadFiles (fs : Files) : Nat → Nat → List FileInclude → List LDoc → Except LErr (List LDoc × List FileInclude)
   | 0, pos, incs, docs => if pos < incs.length then .error (.hang "include work-list does not terminate") else .ok (docs, incs)
@@ -91,18 +109,10 @@ def loadFiles (fs : Files) : Nat → Nat → List FileInclude → List LDoc → 
     | some inc =>
       match fs.find? (·.1 == inc.filename) with
       | none => .error (.error "cannot read file")
-      | some (_, ydocs) =>
-        let start := docs.length
-        let new := ydocs.zipIdx.map (fun (d, n) => ({ doc := d, filename := inc.filename, idx := start + n, includedBy := inc.includedBy } : LDoc))
-        let rel := pathParent inc.filename
-        let incs := new.foldl (fun incs nd =>
-          let incs := (nd.doc.subdirs.getD []).foldl (fun incs sd =>
-            let fi : FileInclude := ⟨pathJoin (pathJoin rel sd) "laze.yml", some nd.idx⟩
-            if incs.contains fi then incs else incs ++ [fi]) incs
-          (nd.doc.includes.getD []).foldl (fun incs f =>
-            let fi : FileInclude := ⟨pathJoin rel f, some nd.idx⟩
-            if incs.contains fi then incs else incs ++ [fi]) incs) incs
-        loadFiles fs fuel (pos + 1) incs (docs ++ new)
+      | some fd =>
+        loadFiles fs fuel (pos + 1)
+          ((fd.2.zipIdx.map (mkLDoc inc docs.length)).foldl (docIncludes (pathParent inc.filename)) incs)
+          (docs ++ fd.2.zipIdx.map (mkLDoc inc docs.length))
 
 /-! ### contexts -/
 
@@ -116,51 +126,74 @@ def depFromStringIf (s : String) (other : String) : Except LErr Dep :=
   else if s.startsWith "?" then .ok (.ifSoft other (s.drop 1).toString) else .ok (.ifHard other s)
 
 def relpathOf (filename : String) : String :=
-  let p := pathParent filename
-  if p == "" then "." else p
+  if pathParent filename == "" then "." else pathParent filename
 
 def earlyX {α} (x : Except XErr α) : Except LErr α :=
   match x with
   | .ok v => .ok v
   | .error e => .error (.panic ("early expansion:" ++ xerrKind e))
 
+/-- early expansion of one string of a task; errors are reported -/
+def expandTaskStr (flat : Flat) (s : String) : Except LErr String :=
+  match expandS flat .ignore s with
+  | .ok v => .ok v
+  | .error e => .error (.error ("task:" ++ xerrKind e))
+
+def expandTaskWorkdir (flat : Flat) : Option String → Except LErr (Option String)
+  | some w => (expandTaskStr flat w).map some
+  | none => .ok none
+
 /-- `Task::with_env` (early: no evaluation, unknown variables kept); errors are reported -/
 def taskWithEnv (flat : Flat) (t : Task) : Except LErr Task := do
-  let ex := fun (s : String) => match expandS flat .ignore s with
-    | .ok v => (.ok v : Except LErr String)
-    | .error e => .error (.error ("task:" ++ xerrKind e))
-  let cmd ← t.cmd.mapM ex
-  let wd ← match t.workdir with | some w => (ex w).map some | none => pure none
+  let cmd ← t.cmd.mapM (expandTaskStr flat)
+  let wd ← expandTaskWorkdir flat t.workdir
   return { t with cmd := cmd, workdir := wd }
 
+def convertTask (flat : Flat) (nt : String × Task) : Except LErr (String × Task) :=
+  (taskWithEnv flat nt.2).map (fun t => (nt.1, t))
+
 def convertTasks (tasks : List (String × Task)) (early : Env) : Except LErr (List (String × Task)) :=
-  tasks.mapM (fun (n, t) => (taskWithEnv early.flatten t).map (fun t => (n, t)))
+  tasks.mapM (convertTask early.flatten)
+
+/-- the variables known when a lazefile is read -/
+def contextEarlyEnv (filename : String) : Env := [("relpath", .single (relpathOf filename)), ("root", .single ".")]
+
+def convertOptTasks (early : Env) : Option (List (String × Task)) → Except LErr (Option (List (String × Task)))
+  | some t => (convertTasks t early).map some
+  | none => .ok none
+
+def expandOptEnv (early : Env) : Option Env → Except LErr (Option Env)
+  | some e => (earlyX (e.expandEarly early)).map some
+  | none => .ok none
+
+/-- concatenation of two optional lists (`none` only when both are absent) -/
+def optConcat : Option (List String) → Option (List String) → Option (List String)
+  | some p, some u => some (p ++ u)
+  | some p, none => some p
+  | none, some u => some u
+  | none, none => none
+
+def contextParentName (y : YContext) : String := y.parent.getD "default"
+
+def mkContext (y : YContext) (isBuilder : Bool) (filename : String) (env : Option Env)
+    (tasks : Option (List (String × Task))) : Context :=
+  { name := y.name, parent := if y.name == "default" then none else some (contextParentName y),
+    rules := y.rules, env := env, disable := y.disables, varOptions := y.varOptions, tasks := tasks,
+    envEarly := contextEarlyEnv filename, isBuilder := isBuilder, definedIn := filename }
+
+/-- the `context::<name>` module -/
+def mkContextModule (y : YContext) (filename : String) (selects : List Dep) : Module :=
+  { name := "context::" ++ y.name, contextName := y.name,
+    selects := selects ++ (if y.name == "default" then [] else [.hard ("context::" ++ contextParentName y)]),
+    provides := optConcat y.provides y.providesUnique, conflicts := optConcat y.disables y.providesUnique,
+    definedIn := filename, relpath := relpathOf filename }
 
 /-- `convert_context`: the context and its `context::<name>` module -/
 def convertContext (y : YContext) (isBuilder : Bool) (filename : String) : Except LErr (Context × Module) := do
-  let isDefault := y.name == "default"
-  let parentName := y.parent.getD "default"
-  let early : Env := [("relpath", .single (relpathOf filename)), ("root", .single ".")]
-  let tasks ← match y.tasks with
-    | some t => (convertTasks t early).map some
-    | none => pure none
-  let env ← match y.env with
-    | some e => (earlyX (e.expandEarly early)).map some
-    | none => pure none
-  let ctx : Context :=
-    { name := y.name, parent := if isDefault then none else some parentName,
-      rules := y.rules, env := env, disable := y.disables, varOptions := y.varOptions, tasks := tasks,
-      envEarly := early, isBuilder := isBuilder, definedIn := filename }
+  let tasks ← convertOptTasks (contextEarlyEnv filename) y.tasks
+  let env ← expandOptEnv (contextEarlyEnv filename) y.env
   let selects ← (y.selects.getD []).mapM depFromString
-  let provides := match y.provides, y.providesUnique with
-    | some p, some u => some (p ++ u) | some p, none => some p | none, some u => some u | none, none => none
-  let conflicts := match y.disables, y.providesUnique with
-    | some d, some u => some (d ++ u) | some d, none => some d | none, some u => some u | none, none => none
-  let m : Module :=
-    { name := "context::" ++ y.name, contextName := y.name,
-      selects := selects ++ (if isDefault then [] else [.hard ("context::" ++ parentName)]),
-      provides := provides, conflicts := conflicts, definedIn := filename, relpath := relpathOf filename }
-  return (ctx, m)
+  return (mkContext y isBuilder filename env tasks, mkContextModule y filename selects)
 
 /-- number of parents; `none` on a parent cycle (the implementation recurses forever) -/
 def countParents (cs : List Context) : Nat → Name → Option Nat
@@ -179,45 +212,81 @@ def insertByCount (x : Name × Nat) : List (Name × Nat) → List (Name × Nat)
 def updateCtx (cs : List Context) (n : Name) (f : Context → Context) : List Context :=
   cs.map (fun c => if c.name == n then f c else c)
 
-/-- `ContextBag::finalize` -/
-def finalize (cs0 : List Context) : Except LErr (List Context × List (Name × Nat)) := do
-  let cs := if cs0.any (·.name == "default") then cs0
-    else cs0 ++ [{ name := "default", parent := none,
-                   modules := [{ name := "context::default", contextName := "default" }] }]
-  for c in cs do
-    match c.parent with
-    | some p => if !(cs.any (·.name == p)) then throw (.error "unknown parent")
-    | none => pure ()
-  let mut counts : List (Name × Nat) := []
-  for c in cs do
+def findCtx (cs : List Context) (n : Name) : Option Context := cs.find? (·.name == n)
+
+/-- the implicit `default` context -/
+def defaultContext : Context :=
+  { name := "default", parent := none, modules := [{ name := "context::default", contextName := "default" }] }
+
+def withDefaultContext (cs0 : List Context) : List Context :=
+  if cs0.any (·.name == "default") then cs0 else cs0 ++ [defaultContext]
+
+def parentKnown (cs : List Context) (c : Context) : Bool :=
+  match c.parent with
+  | some p => cs.any (·.name == p)
+  | none => true
+
+/-- `(name, number of parents)` for every context, in bag order -/
+def parentCounts (cs : List Context) : List Context → Except LErr (List (Name × Nat))
+  | [] => .ok []
+  | c :: rest =>
     match countParents cs (cs.length + 1) c.name with
-    | none => throw (.panic "context.rs:count_parents parent cycle (stack overflow)")
-    | some k => counts := counts ++ [(c.name, k)]
-  let sorted := counts.foldl (fun acc x => insertByCount x acc) []
-  -- env: parent env first, own env merged on top
-  let mut cs := cs
-  for (n, k) in sorted do
-    if k == 0 then continue
-    match cs.find? (·.name == n) with
-    | none => pure ()
-    | some c =>
-      match c.parent.bind (fun p => cs.find? (·.name == p)) with
-      | none => pure ()
-      | some par =>
-        match par.env with
-        | some penv => cs := updateCtx cs n (fun c => { c with env := some (match c.env with | some e => penv.merge e | none => penv) })
-        | none => pure ()
-  -- var_options: own map if present, else the parent's effective map
-  for (n, k) in sorted do
-    if k == 0 then continue
-    match cs.find? (·.name == n) with
-    | none => pure ()
-    | some c =>
-      match c.parent.bind (fun p => cs.find? (·.name == p)) with
-      | none => pure ()
-      | some par =>
-        if c.varOptions.isNone then cs := updateCtx cs n (fun c => { c with varOptions := par.varOptions })
-  return (cs, sorted)
+    | none => .error (.panic "context.rs:count_parents parent cycle (stack overflow)")
+    | some k =>
+      match parentCounts cs rest with
+      | .error e => .error e
+      | .ok l => .ok ((c.name, k) :: l)
+
+/-- stable sort by parent count -/
+def sortByCount (counts : List (Name × Nat)) : List (Name × Nat) :=
+  counts.foldl (fun acc x => insertByCount x acc) []
+
+/-- the parent context of `c`, if it is in the bag -/
+def parentCtx (cs : List Context) (c : Context) : Option Context := c.parent.bind (findCtx cs)
+
+/-- parent env first, own env merged on top -/
+def envOnParent (penv : Env) (c : Context) : Context :=
+  { c with env := some (match c.env with | some e => penv.merge e | none => penv) }
+
+/-- one step of the env pass of `finalize` (roots are skipped) -/
+def mergeParentEnv (cs : List Context) (nk : Name × Nat) : List Context :=
+  if nk.2 == 0 then cs else
+  match findCtx cs nk.1 with
+  | none => cs
+  | some c =>
+    match parentCtx cs c with
+    | none => cs
+    | some par =>
+      match par.env with
+      | some penv => updateCtx cs nk.1 (envOnParent penv)
+      | none => cs
+
+def setVarOptions (vo : Option VarOpts) (c : Context) : Context := { c with varOptions := vo }
+
+/-- one step of the var_options pass: own map if present, else the parent's effective map -/
+def inheritVarOptions (cs : List Context) (nk : Name × Nat) : List Context :=
+  if nk.2 == 0 then cs else
+  match findCtx cs nk.1 with
+  | none => cs
+  | some c =>
+    match parentCtx cs c with
+    | none => cs
+    | some par => if c.varOptions.isNone then updateCtx cs nk.1 (setVarOptions par.varOptions) else cs
+
+/-- both passes, parents before children -/
+def inheritAll (cs : List Context) (sorted : List (Name × Nat)) : List Context :=
+  sorted.foldl inheritVarOptions (sorted.foldl mergeParentEnv cs)
+
+/-- `finalize` on a bag that contains `default` -/
+def finalizeBag (cs : List Context) : Except LErr (List Context × List (Name × Nat)) :=
+  if !(cs.all (parentKnown cs)) then .error (.error "unknown parent") else
+  match parentCounts cs cs with
+  | .error e => .error e
+  | .ok counts => .ok (inheritAll cs (sortByCount counts), sortByCount counts)
+
+/-- `ContextBag::finalize` -/
+def finalize (cs0 : List Context) : Except LErr (List Context × List (Name × Nat)) :=
+  finalizeBag (withDefaultContext cs0)
 
 /-- `ContextBag::add_module` (the `provided` tables are computed by `Bag.provided`) -/
 def addModule (cs : List Context) (m : Module) : Except LErr (List Context) :=
@@ -234,141 +303,345 @@ def processRemoves (l : List Dep) : List Dep :=
   let removals := (l.filter (·.name.startsWith "-")).map (fun d => (d.name.drop 1).toString)
   l.filter (fun d => !(d.name.startsWith "-" || removals.contains d.name))
 
-def entriesToDeps (l : List YEntry) : Except LErr (List Dep) := do
-  let mut out : List Dep := []
-  for e in l do
-    match e with
-    | .str s => out := out ++ [← depFromString s]
-    | .map m =>
-      for (k, v) in m do
-        for d in v do
-          out := out ++ [← depFromStringIf d k]
-  return out
+/-- a conditional dependency `cond: name` -/
+def depIf (cond : String) (s : String) : Except LErr Dep := depFromStringIf s cond
+
+/-- the dependencies of a map entry `cond ↦ [names]`, in document order -/
+def mapEntryDeps : List (String × List String) → Except LErr (List Dep)
+  | [] => .ok []
+  | (k, v) :: rest =>
+    match v.mapM (depIf k) with
+    | .error e => .error e
+    | .ok a =>
+      match mapEntryDeps rest with
+      | .error e => .error e
+      | .ok b => .ok (a ++ b)
+
+def entryDeps : YEntry → Except LErr (List Dep)
+  | .str s => (depFromString s).map (fun d => [d])
+  | .map m => mapEntryDeps m
+
+def entriesToDeps : List YEntry → Except LErr (List Dep)
+  | [] => .ok []
+  | e :: rest =>
+    match entryDeps e with
+    | .error x => .error x
+    | .ok a =>
+      match entriesToDeps rest with
+      | .error x => .error x
+      | .ok b => .ok (a ++ b)
 
 def appendOpt (a : Option (List String)) (b : List String) : Option (List String) := some (a.getD [] ++ b)
 
 def mergeOptional (acc : List (String × List String)) (k : String) (v : List String) : List (String × List String) :=
   if acc.any (·.1 == k) then acc.map (fun e => if e.1 == k then (k, e.2 ++ v) else e) else acc ++ [(k, v)]
 
+/-! #### `init_module` + `convert_module`, step by step -/
+
+/-- the module the conversion starts from: a copy of the defaults, or an empty module -/
+def moduleBase (name : String) (context : Option String) : Option Module → Module
+  | some d => { d with name := name, contextName := context.getD d.contextName }
+  | none => { name := name, contextName := context.getD "default" }
+
+def moduleNameOf (y : YModule) (filename : String) : String := y.name.getD (pathParent filename)
+
+def initModule (y : YModule) (context : Option String) (isBinary : Bool) (filename : String)
+    (defaults : Option Module) : Module :=
+  { moduleBase (moduleNameOf y filename) context defaults with
+    isBinary := isBinary, definedIn := filename, relpath := relpathOf filename }
+
+/-- `selects:`, `uses:` and `depends:` (a `depends` entry is selected and imported) -/
+def withDeps (selA uses deps : List Dep) (m : Module) : Module :=
+  { m with selects := m.selects ++ selA ++ deps, imports := m.imports ++ uses ++ deps }
+
+def withConflicts (y : YModule) (m : Module) : Module :=
+  match y.conflicts with
+  | some c => { m with conflicts := appendOpt m.conflicts c }
+  | none => m
+
+def withProvides (y : YModule) (m : Module) : Module :=
+  match y.provides with
+  | some p => { m with provides := appendOpt m.provides p }
+  | none => m
+
+def withProvidesUnique (y : YModule) (m : Module) : Module :=
+  match y.providesUnique with
+  | some u => { m with conflicts := appendOpt m.conflicts u, provides := appendOpt m.provides u }
+  | none => m
+
+def withNotifyAll (y : YModule) (m : Module) : Module := if y.notifyAll then { m with notifyAll := true } else m
+
+def withRemoves (m : Module) : Module :=
+  { m with selects := processRemoves m.selects, imports := processRemoves m.imports }
+
+def mergeOptEnv (base : Env) : Option Env → Env
+  | some e => base.merge e
+  | none => base
+
+def withEnvs (y : YModule) (m : Module) : Module :=
+  { m with envLocal := mergeOptEnv m.envLocal y.envLocal,
+           envExport := mergeOptEnv m.envExport y.envExport,
+           envGlobal := mergeOptEnv m.envGlobal y.envGlobal }
+
+def plainSource : YEntry → Option String
+  | .str s => some s
+  | .map _ => none
+
+def mergeOptionalPair (acc : List (String × List String)) (kv : String × List String) : List (String × List String) :=
+  mergeOptional acc kv.1 kv.2
+
+def mergeOptionalEntry (acc : List (String × List String)) : YEntry → List (String × List String)
+  | .map mp => mp.foldl mergeOptionalPair acc
+  | .str _ => acc
+
+/-- the optional sources of a `sources:` list, grouped by guard -/
+def optionalSources (l : List YEntry) : List (String × List String) := l.foldl mergeOptionalEntry []
+
+def withOptionalSources (opt : List (String × List String)) (m : Module) : Module :=
+  if opt.isEmpty then m
+  else { m with sourcesOptional := some (opt.foldl mergeOptionalPair (m.sourcesOptional.getD [])) }
+
+def withSources (y : YModule) (m : Module) : Module :=
+  match y.sources with
+  | none => m
+  | some l => withOptionalSources (optionalSources l) { m with sources := m.sources ++ l.filterMap plainSource }
+
+/-- the defaults' list extended by the module's, or the module's alone -/
+def extendList (d y : Option (List String)) : Option (List String) :=
+  match d with
+  | some d => some (d ++ y.getD [])
+  | none => y
+
+def withLists (y : YModule) (m : Module) : Module :=
+  { m with blocklist := extendList m.blocklist y.blocklist, allowlist := extendList m.allowlist y.allowlist }
+
+def setInsert (l : List String) (x : String) : List String := if l.contains x then l else l ++ [x]
+
+/-- `download:` makes the module a build dependency that exports its tag file -/
+def withDownload (y : YModule) (buildDir relpath : String) (m : Module) : Module :=
+  match y.download with
+  | some d =>
+    { m with download := y.download, isBuildDep := true,
+             buildDepFiles := some (setInsert (m.buildDepFiles.getD []) (d.tagfile (d.srcdir buildDir relpath m.name))) }
+  | none => { m with download := none }
+
+/-- the source directory unless `srcdir:` is given: the download directory, or the lazefile's -/
+def defaultSrcdir (y : YModule) (buildDir relpath : String) (name : String) : String :=
+  match y.download with
+  | some d => d.srcdir buildDir relpath name
+  | none => if relpath != "." then relpath else ""
+
+def withBuildFlags (y : YModule) (m : Module) : Module :=
+  { m with build := y.build, isGlobalBuildDep := y.isGlobalBuildDep,
+           isBuildDep := if y.download.isNone then y.isBuildDep else m.isBuildDep }
+
+def withSrcdir (y : YModule) (buildDir relpath : String) (m : Module) : Module :=
+  { m with srcdir := some (y.srcdir.getD (defaultSrcdir y buildDir relpath m.name)) }
+
+def withEarlyEnv (relpath : String) (m : Module) : Module :=
+  { m with envEarly := ((m.envEarly.insert "relpath" (.single relpath)).insert "root" (.single ".")).insert
+                         "srcdir" (.single (m.srcdir.getD "")) }
+
+/-- everything of `convert_module` that cannot fail, given the converted dependency lists -/
+def convertStatic (y : YModule) (context : Option String) (isBinary : Bool) (filename : String)
+    (defaults : Option Module) (buildDir : String) (selA uses deps : List Dep) : Module :=
+  withEarlyEnv (relpathOf filename)
+    (withSrcdir y buildDir (relpathOf filename)
+      (withBuildFlags y
+        (withDownload y buildDir (relpathOf filename)
+          (withLists y
+            (withSources y
+              (withEnvs y
+                (withRemoves
+                  (withNotifyAll y
+                    (withProvidesUnique y
+                      (withProvides y
+                        (withConflicts y
+                          (withDeps selA uses deps
+                            (initModule y context isBinary filename defaults)))))))))))))
+
+/-- the early expansion of the three envs (the local env sees the early env) -/
+def expandModuleEnvs (m : Module) : Except LErr Module := do
+  let loc ← earlyX ((m.envLocal.merge m.envEarly).expandEarly m.envEarly)
+  let exp ← earlyX (m.envExport.expandEarly m.envEarly)
+  let glob ← earlyX (m.envGlobal.expandEarly m.envEarly)
+  return { m with envLocal := loc, envExport := exp, envGlobal := glob }
+
+def taskMarker (nt : String × Task) : String := "::task::" ++ nt.1
+
+/-- `tasks:`: the converted tasks; every task is provided (uniquely) under `::task::<name>` -/
+def withTasks (y : YModule) (m : Module) : Except LErr Module :=
+  match y.tasks with
+  | none => .ok m
+  | some tasks =>
+    match convertTasks tasks m.envEarly with
+    | .error e => .error e
+    | .ok ts =>
+      .ok { m with tasks := ts, provides := appendOpt m.provides (tasks.map taskMarker),
+                   conflicts := appendOpt m.conflicts (tasks.map taskMarker) }
+
+def withAppdir (isBinary : Bool) (m : Module) : Module :=
+  if isBinary then { m with envGlobal := m.envGlobal.insert "appdir" (.single m.relpath) } else m
+
 /-- `init_module` + `convert_module` -/
 def convertModule (y : YModule) (context : Option String) (isBinary : Bool) (filename : String)
     (defaults : Option Module) (buildDir : String) : Except LErr Module := do
-  let relpath := relpathOf filename
-  let name := y.name.getD (pathParent filename)
-  let m0 : Module := match defaults with
-    | some d => { d with name := name, contextName := context.getD d.contextName }
-    | none => { name := name, contextName := context.getD "default" }
-  let m := { m0 with isBinary := isBinary, definedIn := filename, relpath := relpath }
   let selA ← entriesToDeps (y.selects.getD [])
   let uses ← (y.uses.getD []).mapM depFromString
   let deps ← entriesToDeps (y.depends.getD [])
-  let m := { m with selects := m.selects ++ selA ++ deps, imports := m.imports ++ uses ++ deps }
-  let m := match y.conflicts with | some c => { m with conflicts := appendOpt m.conflicts c } | none => m
-  let m := match y.provides with | some p => { m with provides := appendOpt m.provides p } | none => m
-  let m := match y.providesUnique with
-    | some u => { m with conflicts := appendOpt m.conflicts u, provides := appendOpt m.provides u }
-    | none => m
-  let m := if y.notifyAll then { m with notifyAll := true } else m
-  let m := { m with selects := processRemoves m.selects, imports := processRemoves m.imports }
-  let m := { m with envLocal := match y.envLocal with | some e => m.envLocal.merge e | none => m.envLocal,
-                    envExport := match y.envExport with | some e => m.envExport.merge e | none => m.envExport,
-                    envGlobal := match y.envGlobal with | some e => m.envGlobal.merge e | none => m.envGlobal }
-  -- sources
-  let m := match y.sources with
-    | none => m
-    | some l =>
-      let plain := l.filterMap (fun (e : YEntry) => match e with | YEntry.str s => some s | _ => none)
-      let opt := l.foldl (fun acc (e : YEntry) => match e with
-        | YEntry.map mp => mp.foldl (fun acc (k, v) => mergeOptional acc k v) acc
-        | _ => acc) ([] : List (String × List String))
-      let m := { m with sources := m.sources ++ plain }
-      if opt.isEmpty then m
-      else { m with sourcesOptional := some (opt.foldl (fun acc (k, v) => mergeOptional acc k v) (m.sourcesOptional.getD [])) }
-  let m := { m with blocklist := match m.blocklist with
-                      | some d => some (d ++ y.blocklist.getD [])
-                      | none => y.blocklist,
-                    allowlist := match m.allowlist with
-                      | some d => some (d ++ y.allowlist.getD [])
-                      | none => y.allowlist }
-  let m := { m with download := y.download }
-  let (m, srcdir) := match m.download with
-    | some d =>
-      let sd := d.srcdir buildDir relpath m.name
-      let tag := d.tagfile sd
-      let files := m.buildDepFiles.getD []
-      ({ m with buildDepFiles := some (if files.contains tag then files else files ++ [tag]), isBuildDep := true }, sd)
-    | none => (m, if relpath != "." then relpath else "")
-  let m := { m with build := y.build, isGlobalBuildDep := y.isGlobalBuildDep }
-  let m := if m.download.isNone then { m with isBuildDep := y.isBuildDep } else m
-  let m := { m with srcdir := some (y.srcdir.getD srcdir) }
-  let early := ((m.envEarly.insert "relpath" (.single relpath)).insert "root" (.single ".")).insert "srcdir" (.single (m.srcdir.getD ""))
-  let m := { m with envEarly := early }
-  let loc ← earlyX ((m.envLocal.merge early).expandEarly early)
-  let exp ← earlyX (m.envExport.expandEarly early)
-  let glob ← earlyX (m.envGlobal.expandEarly early)
-  let m := { m with envLocal := loc, envExport := exp, envGlobal := glob }
-  let m ← match y.tasks with
-    | none => pure m
-    | some tasks =>
-      let ts ← convertTasks tasks early
-      let markers := tasks.map (fun (n, _) => "::task::" ++ n)
-      pure { m with tasks := ts, provides := appendOpt m.provides markers, conflicts := appendOpt m.conflicts markers }
-  return if isBinary then { m with envGlobal := m.envGlobal.insert "appdir" (.single relpath) } else m
+  let m ← expandModuleEnvs (convertStatic y context isBinary filename defaults buildDir selA uses deps)
+  let m ← withTasks y m
+  return withAppdir isBinary m
+
+/-- the defaults inherited from the including document -/
+def inheritedDefaults (d : LDoc) (map : List (Nat × Module)) : Option Module :=
+  d.includedBy.bind (fun i => (map.find? (·.1 == i)).map (·.2))
+
+/-- `.unwrap()` on the conversion of a defaults section: a reported error becomes a panic -/
+def remapDefaultsErr : LErr → LErr
+  | .error k => .panic ("data.rs:get_defaults unwrap:" ++ k)
+  | e => e
+
+def convertDefaults (d : LDoc) (sub : Option Module) (isBinary : Bool) (buildDir : String) (y : YModule) :
+    Except LErr (Option Module) :=
+  if y.contextIsList then .error (.panic "data.rs:module defaults with context list") else
+  match convertModule y (y.context.bind (·.head?)) isBinary d.filename sub buildDir with
+  | .ok m => .ok (some m)
+  | .error e => .error (remapDefaultsErr e)
 
 /-- `get_defaults` -/
 def getDefaults (d : LDoc) (map : List (Nat × Module)) (key : String) (isBinary : Bool) (buildDir : String) :
-    Except LErr (Option Module) := do
-  let sub : Option Module := d.includedBy.bind (fun i => (map.find? (·.1 == i)).map (·.2))
+    Except LErr (Option Module) :=
   match (d.doc.defaults.getD []).find? (·.1 == key) with
-  | some (_, y) =>
-    if y.contextIsList then throw (.panic "data.rs:module defaults with context list")
-    match convertModule y (y.context.bind (·.head?)) isBinary d.filename sub buildDir with
-    | .ok m => return some m
-    | .error (.error k) => throw (.panic ("data.rs:get_defaults unwrap:" ++ k))
-    | .error e => throw e
-  | none => return sub
+  | some ky => convertDefaults d (inheritedDefaults d map) isBinary buildDir ky.2
+  | none => .ok (inheritedDefaults d map)
 
 def YModule.contexts (y : YModule) : List (Option String) :=
   match y.context with
   | some l => l.map some
   | none => [none]
 
+/-! ### `data::load` -/
+
+/-- one `contexts:`/`builders:` entry: (contexts so far, their `context::` modules) -/
+def addContext (filename : String) (isB : Bool) (acc : List Context × List Module) (y : YContext) :
+    Except LErr (List Context × List Module) :=
+  if acc.1.any (·.name == y.name) then .error (.error "context name already defined") else
+  match convertContext y (isB || y.isBuilder) filename with
+  | .error e => .error e
+  | .ok cm => .ok (acc.1 ++ [cm.1], acc.2 ++ [cm.2])
+
+def addContexts (filename : String) (isB : Bool) :
+    List YContext → List Context × List Module → Except LErr (List Context × List Module)
+  | [], acc => .ok acc
+  | y :: ys, acc =>
+    match addContext filename isB acc y with
+    | .error e => .error e
+    | .ok acc' => addContexts filename isB ys acc'
+
+/-- the `contexts:` of a document, then its `builders:` -/
+def convertContextsOfDoc (d : LDoc) (acc : List Context × List Module) : Except LErr (List Context × List Module) :=
+  match addContexts d.filename false (d.doc.contexts.getD []) acc with
+  | .error e => .error e
+  | .ok acc' => addContexts d.filename true (d.doc.builders.getD []) acc'
+
+def convertContextsOfDocs : List LDoc → List Context × List Module → Except LErr (List Context × List Module)
+  | [], acc => .ok acc
+  | d :: ds, acc =>
+    match convertContextsOfDoc d acc with
+    | .error e => .error e
+    | .ok acc' => convertContextsOfDocs ds acc'
+
+/-- `add_module` for a list of modules -/
+def addModules : List Module → List Context → Except LErr (List Context)
+  | [], cs => .ok cs
+  | m :: ms, cs =>
+    match addModule cs m with
+    | .error e => .error e
+    | .ok cs' => addModules ms cs'
+
+/-- convert one module for one of its contexts and add it to the bag -/
+def addConverted (buildDir : String) (d : LDoc) (isB : Bool) (defaults : Option Module) (y : YModule)
+    (c : Option String) (cs : List Context) : Except LErr (List Context) :=
+  match convertModule y c isB d.filename defaults buildDir with
+  | .error e => .error e
+  | .ok m => addModule cs m
+
+/-- a module with a context list is converted once per context -/
+def addModuleContexts (buildDir : String) (d : LDoc) (isB : Bool) (defaults : Option Module) (y : YModule) :
+    List (Option String) → List Context → Except LErr (List Context)
+  | [], cs => .ok cs
+  | c :: rest, cs =>
+    match addConverted buildDir d isB defaults y c cs with
+    | .error e => .error e
+    | .ok cs' => addModuleContexts buildDir d isB defaults y rest cs'
+
+def addYModules (buildDir : String) (d : LDoc) (isB : Bool) (defaults : Option Module) :
+    List YModule → List Context → Except LErr (List Context)
+  | [], cs => .ok cs
+  | y :: ys, cs =>
+    match addModuleContexts buildDir d isB defaults y y.contexts cs with
+    | .error e => .error e
+    | .ok cs' => addYModules buildDir d isB defaults ys cs'
+
+/-- a `modules:`/`apps:` section; `apps:` with a null value defines one default app -/
+def addModuleSection (buildDir : String) (d : LDoc) (isB : Bool) (defaults : Option Module) :
+    Option (Option (List YModule)) → List Context → Except LErr (List Context)
+  | none, cs => .ok cs
+  | some (some ms), cs => addYModules buildDir d isB defaults ms cs
+  | some none, cs => if isB then addConverted buildDir d true defaults {} none cs else .ok cs
+
+/-- the `modules:` of a document, then its `apps:` -/
+def addModulesOfDoc (buildDir : String) (d : LDoc) (md ad : Option Module) (cs : List Context) :
+    Except LErr (List Context) :=
+  match addModuleSection buildDir d false md d.doc.modules cs with
+  | .error e => .error e
+  | .ok cs' => addModuleSection buildDir d true ad d.doc.apps cs'
+
+/-- a document with `subdirs:` records its effective defaults for the documents it includes -/
+def recordDefaults (d : LDoc) (defs : List (Nat × Module)) (eff : Option Module) : List (Nat × Module) :=
+  if d.doc.subdirs.isSome then
+    match eff with
+    | some m => (d.idx, m) :: defs.filter (·.1 != d.idx)
+    | none => defs
+  else defs
+
+/-- the state of the module pass: the bag, the module-defaults map, the app-defaults map -/
+structure LoadState where
+  cs : List Context
+  mdefs : List (Nat × Module) := []
+  adefs : List (Nat × Module) := []
+
+def loadDocStep (buildDir : String) (d : LDoc) (s : LoadState) : Except LErr LoadState :=
+  match getDefaults d s.mdefs "module" false buildDir with
+  | .error e => .error e
+  | .ok md =>
+    match getDefaults d s.adefs "app" true buildDir with
+    | .error e => .error e
+    | .ok ad =>
+      match addModulesOfDoc buildDir d md ad s.cs with
+      | .error e => .error e
+      | .ok cs' => .ok { cs := cs', mdefs := recordDefaults d s.mdefs md, adefs := recordDefaults d s.adefs ad }
+
+def loadModulesLoop (buildDir : String) : List LDoc → LoadState → Except LErr LoadState
+  | [], s => .ok s
+  | d :: ds, s =>
+    match loadDocStep buildDir d s with
+    | .error e => .error e
+    | .ok s' => loadModulesLoop buildDir ds s'
+
+/-- from the documents to the bag: contexts, `finalize`, context modules, modules -/
+def loadDocs (buildDir : String) (docs : List LDoc) : Except LErr (List Context) := do
+  let cc ← convertContextsOfDocs docs ([], [])
+  let fin ← finalize cc.1
+  let cs ← addModules cc.2 fin.1
+  let s ← loadModulesLoop buildDir docs { cs := cs }
+  return s.cs
+
 /-- `data::load`: the loaded bag and the list of files whose state is recorded -/
 def load (fs : Files) (projectFile : String) (buildDir : String) : Except LErr (Bag × List String) := do
-  let (docs, incs) ← loadFiles fs (4 * fs.length + 8) 0 [⟨projectFile, none⟩] []
-  -- contexts
-  let mut cs : List Context := []
-  let mut cmods : List Module := []
-  for d in docs do
-    for (list, isB) in [(d.doc.contexts, false), (d.doc.builders, true)] do
-      for y in list.getD [] do
-        if cs.any (·.name == y.name) then throw (.error "context name already defined")
-        let (c, m) ← convertContext y (isB || y.isBuilder) d.filename
-        cs := cs ++ [c]
-        cmods := cmods ++ [m]
-  let (cs', _) ← finalize cs
-  cs := cs'
-  for m in cmods do
-    cs ← addModule cs m
-  -- modules
-  let mut mdefs : List (Nat × Module) := []
-  let mut adefs : List (Nat × Module) := []
-  for d in docs do
-    let md ← getDefaults d mdefs "module" false buildDir
-    let ad ← getDefaults d adefs "app" true buildDir
-    if d.doc.subdirs.isSome then
-      match md with | some m => mdefs := (d.idx, m) :: mdefs.filter (·.1 != d.idx) | none => pure ()
-      match ad with | some m => adefs := (d.idx, m) :: adefs.filter (·.1 != d.idx) | none => pure ()
-    for (list, isB) in [(d.doc.modules, false), (d.doc.apps, true)] do
-      match list with
-      | none => pure ()
-      | some (some ms) =>
-        for y in ms do
-          for c in y.contexts do
-            cs ← addModule cs (← convertModule y c isB d.filename (if isB then ad else md) buildDir)
-      | some none =>
-        if isB then
-          cs ← addModule cs (← convertModule {} none true d.filename ad buildDir)
-  return ({ contexts := cs }, incs.map (·.filename))
+  let di ← loadFiles fs (4 * fs.length + 8) 0 [⟨projectFile, none⟩] []
+  let cs ← loadDocs buildDir di.1
+  return ({ contexts := cs }, di.2.map (·.filename))
 
 end Laze
